@@ -39,17 +39,17 @@ type Run struct {
 	Stats   map[string]int
 	Hashes  map[uint64]bool
 	// swarm
-	faultsOn   bool
-	jobsOn     bool
-	skipJobs   bool            // paired run: job frames are consumed but not executed
-	jobDur     []time.Duration // recorded virtual duration per job frame
-	jobIdx     int
-	opWeights  []int
-	bigPull    bool
-	noSeek     bool
-	maxMinAge  time.Duration
-	nTopics    int
-	nSubs      int
+	faultsOn     bool
+	jobsOn       bool
+	skipJobs     bool            // paired run: job frames are consumed but not executed
+	jobDur       []time.Duration // recorded virtual duration per job frame
+	jobIdx       int
+	opWeights    []int
+	bigPull      bool
+	noSeek       bool
+	maxMinAge    time.Duration
+	nTopics      int
+	nSubs        int
 	pendingFault string
 	virtualStart time.Time
 	header       int
@@ -91,10 +91,11 @@ const (
 	opPullAck
 	opChase
 	opNack
+	opWaitCancel
 	nOps
 )
 
-var opNames = [...]string{"createTopic", "deleteTopic", "createSub", "deleteSub", "updateSub", "publish", "pull", "ack", "modack", "seekTime", "snapshot", "seekSnap", "advance", "job", "dlSweep", "expirySweep", "setDelay", "fault", "restart", "deleteSnap", "pullAck", "chase", "nack"}
+var opNames = [...]string{"createTopic", "deleteTopic", "createSub", "deleteSub", "updateSub", "publish", "pull", "ack", "modack", "seekTime", "snapshot", "seekSnap", "advance", "job", "dlSweep", "expirySweep", "setDelay", "fault", "restart", "deleteSnap", "pullAck", "chase", "nack", "waitCancel"}
 
 func baseWeights() []int {
 	w := make([]int, nOps)
@@ -121,6 +122,7 @@ func baseWeights() []int {
 	w[opPullAck] = 6
 	w[opChase] = 0
 	w[opNack] = 3
+	w[opWaitCancel] = 1
 	return w
 }
 
@@ -166,7 +168,16 @@ func (r *Run) configure() {
 		w[opSnapshot] = 6
 		w[opSeekSnap] = 8
 		w[opAck] *= 2
+	case "snap":
+		// snapshots taken and sought while background pruning removes completed rows
+		r.jobsOn = true
+		w[opJob] = 8
+		w[opSnapshot] = 8
+		w[opSeekSnap] = 10
+		w[opAck] *= 3
+		w[opPullAck] *= 2
 	case "time":
+		w[opWaitCancel] = 6
 		w[opAdvance] *= 2
 		w[opExpirySweep] = 5
 		w[opSetDelay] = 3
@@ -451,6 +462,8 @@ func (r *Run) step() *Violation {
 		return r.doChase()
 	case opNack:
 		return r.doNack()
+	case opWaitCancel:
+		return r.doWaitCancel(t.Intn(r.nSubs))
 	case opFault:
 		r.doArmFault()
 		return nil
@@ -889,9 +902,20 @@ func (r *Run) doSeekTime(i int) *Violation {
 		} else {
 			sort.Slice(ms, func(a, b int) bool { return ms[a].Seq < ms[b].Seq })
 			m := ms[t.Intn(len(ms))]
-			if t.Bool(50) {
+			var ex []*MMsg
+			for _, x := range ms {
+				if x.Exact {
+					ex = append(ex, x)
+				}
+			}
+			switch {
+			case len(ex) > 0 && t.Bool(45):
+				// exactly the publish time of a message: "at or before" is acknowledged
+				T = ex[t.Intn(len(ex))].PubTime
+				r.M.probe("seek_exact_publish_time")
+			case t.Bool(50):
 				T = m.T1.Add(time.Millisecond)
-			} else {
+			default:
 				T = m.T0.Add(-time.Millisecond)
 			}
 		}
@@ -915,6 +939,12 @@ func (r *Run) doSeekTime(i int) *Violation {
 
 func (r *Run) doSnapshot(ni, si int) *Violation {
 	name, sub := snapName(ni), subName(si)
+	if r.Variant == "snap" && r.T.Bool(35) {
+		// completed rows pruned right before the snapshot is computed from the rows
+		if v := r.runJob(0, time.Nanosecond, 100, false); v != nil {
+			return v
+		}
+	}
 	_, res := r.do("CreateSnapshot", &pubsubpb.CreateSnapshotRequest{Name: name, Subscription: sub})
 	r.ev("CreateSnapshot %s of %s -> %v", name, sub, code(res.err))
 	r.cev("CreateSnapshot %s %v", name, code(res.err))
@@ -1073,7 +1103,7 @@ func (r *Run) runJob(j int, minAge time.Duration, maxDel int, record bool) *Viol
 		r.stat("job_deleted_something")
 	}
 	if j == 0 {
-		r.M.pruneRuns = append(r.M.pruneRuns, pruneRun{at: start, minAge: minAge})
+		r.M.NotePrune(start, minAge)
 	}
 	after, err := r.projection()
 	if err != nil {
@@ -1705,5 +1735,54 @@ func (r *Run) doNack() *Violation {
 		return viol("C04", "nack_error", "nack of %v failed: %v", good, err)
 	}
 	r.M.Nack(good, t0, t1)
+	return nil
+}
+
+// doWaitCancel: a Pull without return_immediately on a subscription with nothing deliverable
+// goes to wait server-side; the client gives up (cancels) while it waits. The pull counts as
+// activity for the subscription's expiry clock (C14: every pull, even an empty one).
+func (r *Run) doWaitCancel(i int) *Violation {
+	name := subName(i)
+	ms := r.M.LiveSub(name)
+	if ms == nil {
+		return nil
+	}
+	now := time.Now()
+	for _, e := range ms.EDs {
+		if (e.State == stOut || e.Fuzzy) && e.mayAlive(now) && !e.LeaseLo.After(now.Add(2*time.Minute)) {
+			return nil // something is or soon becomes deliverable: this would not be an empty wait
+		}
+	}
+	r.nudge(5 * time.Millisecond)
+	ctx, cancel := context.WithCancel(context.Background())
+	var err error
+	done := make(chan struct{})
+	t0 := time.Now()
+	go func() {
+		defer close(done)
+		_, err = r.W.Call(ctx, "Pull", &pubsubpb.PullRequest{Subscription: name, MaxMessages: 10})
+	}()
+	r.Sim.Settle() // the pull is now blocked in its server-side wait
+	time.Sleep(time.Duration(1+r.T.Intn(20)) * time.Second)
+	r.Sim.Settle()
+	select {
+	case <-done:
+		// it returned by itself (should not happen: nothing is deliverable)
+	default:
+	}
+	cancel()
+	<-done
+	r.Sim.Settle()
+	t1 := time.Now()
+	r.ev("Pull %s (waiting) cancelled by the client after %v -> %v", name, t1.Sub(t0), code(err))
+	r.cev("PullCancelled %s", name)
+	if p, ok := isPanic(err); ok {
+		return viol("C16", "panic:Pull", "%v", p.Val)
+	}
+	if err == nil {
+		return nil // returned empty on its own; still activity
+	}
+	r.M.probe("waiting_pull_cancelled")
+	ms.ActLo, ms.ActHi = t0, t1
 	return nil
 }
